@@ -198,12 +198,13 @@ func (c *CerNet) Sync(from, to int) {
 				msgs = append(msgs, cerMsg{from, to, "tx", b, 0})
 			}
 		}
-		for _, k := range a.Keys.GetFlipKeysForSync(common.MultiShard, true) {
+		// (a node offers its own keys and packages through the "priority" lists and everybody else's through the others)
+		for _, k := range append(a.Keys.GetPriorityFlipKeysForSync(), a.Keys.GetFlipKeysForSync(common.MultiShard, true)...) {
 			if b, err := k.ToBytes(); err == nil {
 				msgs = append(msgs, cerMsg{from, to, "flipkey", b, 0})
 			}
 		}
-		for _, h := range a.Keys.GetFlipPackagesHashesForSync(common.MultiShard, true) {
+		for _, h := range append(a.Keys.GetPriorityFlipPackagesHashesForSync(), a.Keys.GetFlipPackagesHashesForSync(common.MultiShard, true)...) {
 			if e, _, _, ok := a.Keys.Get(h); ok {
 				if p, isP := e.(*types.PrivateFlipKeysPackage); isP {
 					if b, err := p.ToBytes(); err == nil {
